@@ -481,6 +481,8 @@ class Facts:
         return ".none"
 
     def escape(self, n: ast.AST, p: Optional[ast.AST], parents) -> str:
+        if isinstance(n, ast.Call) and isinstance(n.func, ast.Name) and n.func.id in SET_BUILDERS and not n.args and not n.keywords:
+            return ".emptySetLiteral"      # `set()` handed to a call (e.g. the default of `dict.get`): nothing to iterate
         if isinstance(n, ast.Set) and len(n.elts) == 1 and isinstance(n.elts[0], ast.Constant):
             return ".singletonDisplay"
         if isinstance(p, ast.keyword) and p.arg:
@@ -867,7 +869,8 @@ class ScopeAnalysis:
                 use = self._use(n, p, parents)
                 STATS[use[0]] = STATS.get(use[0], 0) + 1
                 if use[0] == "iter" and k == "set":
-                    out.append(("setIter", f"{use[1]} <- {_txt(n, 70)}", F.int_set(n)))
+                    # `sorted(<set>)`: the consumer is the built-in sort, whatever the set (fact `sortedConsumer`)
+                    out.append(("setIter", f"{use[1]} <- {_txt(n, 70)}", ".sortedConsumer" if use[1] == "sorted" else F.int_set(n)))
                 elif use[0] == "escape":
                     out.append(("setEscape", f"{use[1]} <- {_txt(n, 70)}", F.escape(n, p, parents)))
         return out
@@ -1113,6 +1116,10 @@ def emit() -> str:
          "  /-- the set display is the keyword argument `kw` of a call of `callee` -/\n"
          "  | kwarg (callee : String) (kw : String)\n"
          "  | singletonDisplay\n"
+         "  /-- the expression is the literal `set()` -/\n"
+         "  | emptySetLiteral\n"
+         "  /-- the set is the argument of the built-in `sorted()` -/\n"
+         "  | sortedConsumer\n"
          "  /-- the text derived from the identifier is only an operand of `==` / `!=` / `in` -/\n"
          "  | cmpEqOnly\n"
          "  /-- the module is not in the import closure of session/environment.py, session/ray_envs.py, game/game.py -/\n"
